@@ -510,7 +510,7 @@ func runC04(tier string, args []string) int {
 		return c04RootRecover(args[1:])
 	}
 	c := vlib.NewCtx("C04", tier, "fault_enumeration")
-	c.SetRule("per case a writer process (full instance + 1-4 writer connections issuing a deterministic list of acknowledged batches with unique timestamps/values: node batches of 1-5 points and occasional batches of 300-1400 points, in half of the phases a burst of 150-350 pipelined batches from one more connection (the store then works through a backlog), edge creation with node type and edge points, edge-point updates, a mirror, points for a node whose edge is only created later in the phase or after the crash in the next phase, over a 4-deep diamond-shaped tree) is killed with SIGKILL at a crash instant chosen from: (a) the N-th write(2) to the store file or its WAL, injected by strace, N from a PRNG list covering first-time initialisation (small N) and steady state, (b) the k-th hit of a verif-tag hook site inside the store (between the statements of a write transaction, between database write and rebroadcast, between the separate steps of first-time initialisation), (c) a parent-side kill after k acknowledged operations, (d) no kill (clean stop). In addition one operation - the replacement of the instance root - is killed at every one of its write(2) calls in turn. The file is then reopened by a fresh process (full instance), dumped and judged; the recovered file is run and killed a second time (crash during reopening / continued use). A third of the node creations go through the library's client.SendNode with 200-1500 points (its return without error counts as the acknowledgement of the points and of the edge); one kill kind is death at the moment SendNode has returned. Oracle: reopen succeeds with one root; root id and signing key equal the ones announced before the kill; every acknowledged batch is present (stored timestamp >= each of its points); every started batch is visible completely or not at all; no stored harness point that was never sent; C03 Merkle oracle on the recovered tree; admin.storeVerify silent. distinct = (phase, kill kind, operation kind open at death, init|steady, write-index bucket)")
+	c.SetRule("per case a writer process (full instance + 1-4 writer connections issuing a deterministic list of acknowledged batches with unique timestamps/values: node batches of 1-5 points and occasional batches of 300-1400 points, in half of the phases a burst of 150-350 pipelined batches from one more connection (the store then works through a backlog), edge creation with node type and edge points, edge-point updates, a mirror, points for a node whose edge is only created later in the phase or after the crash in the next phase, over a 4-deep diamond-shaped tree) is killed with SIGKILL at a crash instant chosen from: (a) the N-th write(2) to the store file or its WAL, injected by strace, N from a PRNG list covering first-time initialisation (small N) and steady state, (b) the k-th hit of a verif-tag hook site inside the store (between the statements of a write transaction, between database write and rebroadcast, between the separate steps of first-time initialisation), (c) a parent-side kill after k acknowledged operations, (d) no kill (clean stop). In addition one operation - the replacement of the instance root - is killed at every one of its write(2) calls in turn. The file is then reopened by a fresh process (full instance), dumped and judged; the recovered file is run and killed a second time (crash during reopening / continued use). A third of the node creations go through the library's client.SendNode with 200-1500 points (its return without error counts as the acknowledgement of the points and of the edge); one kill kind is death at the moment SendNode has returned. One phase in nine is not killed but has every write(2) to the store file or its log fail with ENOSPC from some point on (strace fault injection): what is acknowledged before or after that point must be in the file when the process has stopped. Oracle: reopen succeeds with one root; root id and signing key equal the ones announced before the kill; every acknowledged batch is present (stored timestamp >= each of its points); every started batch is visible completely or not at all; no stored harness point that was never sent; C03 Merkle oracle on the recovered tree; admin.storeVerify silent. distinct = (phase, kill kind, operation kind open at death, init|steady, write-index bucket)")
 	c.Assume("process death only (SIGKILL): the page cache survives, which is what the property states; power loss is out of scope")
 	self, _ := os.Executable()
 	if _, err := exec.LookPath("strace"); err != nil {
@@ -622,7 +622,7 @@ func runC04(tier string, args []string) int {
 		root, key := "", ""
 		for phase := 1; phase <= 2; phase++ {
 			// choose the crash instant
-			kind := []string{"strace", "strace", "strace", "ackkill", "clean", "site", "site", "libkill"}[r.Intn(8)]
+			kind := []string{"strace", "strace", "strace", "ackkill", "clean", "site", "site", "libkill", "ioerr"}[r.Intn(9)]
 			n := 0
 			site := ""
 			switch kind {
@@ -645,6 +645,11 @@ func runC04(tier string, args []string) int {
 				default:
 					n = 60 + r.Intn(400)
 				}
+			case "ioerr":
+				// not a death but what often comes before one: from its n-th write(2) on, every write of a thread to
+				// the store file or its log fails (disk full); the process lives on, is stopped at the end of
+				// the phase, and whatever it acknowledged - before or after the disk filled up - has to be in the file
+				n = 40 + r.Intn(400)
 			case "ackkill":
 				n = r.Intn(50)
 			case "libkill":
@@ -657,8 +662,12 @@ func runC04(tier string, args []string) int {
 			if kind == "site" {
 				wargs = append(wargs, site, fmt.Sprint(n))
 			}
-			if kind == "strace" {
-				sargs := append([]string{"-f", "-qq", "-o", slog, "-P", file, "-P", file + "-wal", "-e", "trace=write,fsync", "-e", fmt.Sprintf("inject=write:signal=SIGKILL:when=%d", n), self}, wargs...)
+			if kind == "strace" || kind == "ioerr" {
+				inj := fmt.Sprintf("inject=write:signal=SIGKILL:when=%d", n)
+				if kind == "ioerr" {
+					inj = fmt.Sprintf("inject=write:error=ENOSPC:when=%d+", n) // (a single failure is retried by the VFS and goes unnoticed)
+				}
+				sargs := append([]string{"-f", "-qq", "-o", slog, "-P", file, "-P", file + "-wal", "-e", "trace=write,fsync", "-e", inj, self}, wargs...)
 				cmd = exec.Command("strace", sargs...)
 			} else {
 				cmd = exec.Command(self, wargs...)
@@ -742,6 +751,9 @@ func runC04(tier string, args []string) int {
 			}
 			c.Distinct(fmt.Sprintf("phase%d %s%s stage=%s open=%s writes~%d", phase, kind, site, stage, open, writeIdx/50*50))
 			c.Count("kills:"+kind, 1)
+			if kind == "ioerr" && len(run.Refused) > 0 {
+				c.Count("failed_writes_answered_with_an_error", int64(len(run.Refused)))
+			}
 
 			// ---- recovery in a fresh process
 			rc := exec.Command(self, "C04", tier, "recover", dir)
@@ -818,6 +830,20 @@ func runC04(tier string, args []string) int {
 			for ek := range edgePts {
 				placed[ek[1]] = true
 			}
+			// nodes that hang below the root through a chain of acknowledged creations (in any phase so far): only
+			// what happens on or below those is observable
+			createAcked := map[string]bool{dump.Root: true}
+			for grew := true; grew; {
+				grew = false
+				for _, ph := range phases {
+					for _, o := range ph.ops {
+						if (o.Kind == "create" || o.Kind == "mirror") && ph.run.Acked[o.N] && createAcked[o.Parent] && !createAcked[o.Node] {
+							createAcked[o.Node] = true
+							grew = true
+						}
+					}
+				}
+			}
 			sent := map[string]bool{} // every harness point ever started: "node|edge id type key ts"
 			for _, ph := range phases {
 				for _, o := range ph.ops {
@@ -876,6 +902,17 @@ func runC04(tier string, args []string) int {
 					if o.Kind == "nodePoints" && strings.HasSuffix(o.Node, "-orph") && !placed[o.Node] {
 						// written before the node has an edge: not observable through the API until it is attached
 						c.Count("orphan_batches_not_yet_observable", 1)
+						continue
+					}
+					// an operation on (or below) a node whose own creation was refused or never finished (the disk was
+					// full, the process died) is not observable either; if that creation had been acknowledged, its
+					// loss is reported for the creation itself
+					anchor := o.Parent
+					if o.Kind == "nodePoints" {
+						anchor = o.Node
+					}
+					if anchor != dump.Root && !placed[anchor] && !createAcked[anchor] {
+						c.Count("batches_below_a_node_that_was_never_created", 1)
 						continue
 					}
 					if o.Kind == "nodePoints" && strings.HasSuffix(o.Node, "-orph") && ph.run.Acked[o.N] {
